@@ -106,11 +106,12 @@ def r05_4(ctx):
     ctx.ob('R05.4', '_trywaitkill:TERM-before-KILL', ok, tk, None, 'the termination signal is tried first', path=w)
 
 
-def helpers_hold_live_objects(ctx, rule):
+def helpers_hold_live_objects(ctx, rule, only=('TimeoutHandler', 'ResultHandler', 'TaskHandler'), floor=4):
     """The helper threads are handed the pool's mutable objects (worker list, job cache, counters) and must keep
     *those objects* -- not copies: the supervisor mutates them in place, a snapshot goes stale after the first
     replacement."""
-    ctx.rule(rule, 'helper threads keep the pool\'s live worker list / cache / counters (no defensive copies)', floor=4)
+    ctx.rule(rule, '%s keep the pool\'s live worker list / cache / counters (no defensive copies)' % ', '.join(only),
+             floor=floor)
     m = ctx.model
     pool = m.cls('pool:Pool')
     live = {'self._pool': 'worker list', 'self._cache': 'job cache', 'self._on_ready_counters': 'per-worker counters'}
@@ -122,7 +123,7 @@ def helpers_hold_live_objects(ctx, rule):
                 continue
             v = m.class_attr(pool, cal.split('.')[1])
             target = m.resolve_class(dotted(v), fi.module) if v is not None and dotted(v) else None
-            if target is None:
+            if target is None or target.name not in only:
                 continue
             init = m.method(target, '__init__')
             if init is None:
@@ -145,7 +146,7 @@ def helpers_hold_live_objects(ctx, rule):
                        'self.<attr> = %s (the pool\'s %s itself)' % (p, live[what]) if ok else
                        '%s stores a copy of the pool\'s %s: after the first worker replacement it looks at a '
                        'stale snapshot' % (target.name, live[what]))
-    q.need(n >= 4, 'constructor sites of the helper threads not found')
+    q.need(n >= floor, 'constructor sites of the helper threads not found')
 
 
 def r05_7(ctx):
@@ -170,7 +171,7 @@ def r05_7(ctx):
 
 
 def run(ctx):
-    helpers_hold_live_objects(ctx, 'R05.8')
+    helpers_hold_live_objects(ctx, 'R05.8', only=('TimeoutHandler', 'ResultHandler'))
     r05_7(ctx)
     r04_1(ctx, site=_scanner_side, floor=5)
     r05_1(ctx)
@@ -183,7 +184,7 @@ def run(ctx):
     # replacement of the killed worker: the supervision tick restarts the missing number
     from .c09 import r09_1, r09_3
     r09_3(ctx)
-    r09_1(ctx)
+    r09_1(ctx, state_recheck=False)
 
 
 _P = 'billiard/pool.py'
